@@ -38,7 +38,7 @@ PROBES = ["ran_to_completion", "forced_cleanup_deleted_preexisting", "refused_wi
           "relative_workspace", "default_workspace", "input_via_symlinked_ancestor", "cwd_contains_default_name",
           "c_language", "c_header_preprocess", "second_run_other_project", "second_run_incremental", "spawned_subprocess", "graph_output", "javascript_language",
           "inputs_share_base_name", "input_given_with_leading_dotdots", "strict_parse_mode", "non_utf8_source_file",
-          "pwd_is_start_directory", "pwd_left_over_from_launcher", "two_inputs_contain_workspace", "not_quiet", "taint_report_written", "debug_print_stmts", "workspace_below_a_src_directory", "plugin_option", "first_run_incremental"]
+          "pwd_is_start_directory", "pwd_left_over_from_launcher", "two_inputs_contain_workspace", "not_quiet", "taint_report_written", "debug_print_stmts", "workspace_below_a_src_directory", "plugin_option", "first_run_incremental", "workspace_copied_elsewhere", "input_file_deleted_between_runs", "shell_metacharacters_in_c_file_name"]
 # the same check again, smaller, in interpreters started with assertions stripped (python -O / PYTHONOPTIMIZE=1)
 ENV_VARIANTS = [{"name": "python-O", "env": {"PYTHONOPTIMIZE": "1"}, "runs": {'quick': 250, 'thorough': 2500}}]
 TIERS = {
@@ -104,7 +104,8 @@ def gen_knobs(rng, tier):
         "lang": rng.choice(["python", "python", "python,javascript", "javascript", "c", "c"]),
         "graph": rng.random() < 0.35,
         "c_preprocess": rng.random() < 0.7,
-        "second": rng.choice(["same_forced", "same_forced", "other_project_forced", "other_project_incremental", "other_project_incremental"]),
+        "second": rng.choice(["same_forced", "same_forced", "other_project_forced", "other_project_incremental", "other_project_incremental",
+                              "moved_workspace_incremental"]),
         "n_inputs": rng.choice([1, 1, 2, 3]),
         "tree_files": rng.randint(1, 8),
         "symlinks": rng.random() < 0.4,
@@ -142,6 +143,9 @@ def _tree(rng, k, base, ops):
         r = rng.random()
         if k["lang"] == "c" and r < 0.75:
             name = f"m{i}.c" if r < 0.55 else (f"m{i % 2}_processed.c" if r < 0.65 else "util.h")
+            if r < 0.12:
+                # names the shell would read differently
+                name = rng.choice(["old->new.c", "a;b.c", "$(touch pwned).c", "sp ace.c", "q'uote.c", "amp&ersand.c", "back`tick`.c", "star*.c"])
             ops.append({"op": "mkfile", "path": os.path.join(d, name),
                         "content": rng.choice(CSRC) if name.endswith(".c") else "int add(int a, int b);\n"})
             continue
@@ -325,6 +329,23 @@ def generate(rng, k):
         if rng.random() < 0.3:
             second["sub"] = "lang"
         kind2 = k.get("second", "same_forced")
+        if kind2 == "moved_workspace_incremental" and (placement != "disjoint" or not run.get("w") or run["w"].get("form") != "abs"):
+            kind2 = "same_forced"
+        if kind2 == "moved_workspace_incremental":
+            # the workspace of the first run is COPIED to another place (a backup restored elsewhere, a moved checkout), an input
+            # file is deleted, and the copy is re-used with --incremental: everything the copy remembers about paths points into
+            # the first workspace, which is now a bystander
+            first_ws = run["w"]["path"]
+            victim = next((op["path"] for op in ops if op["op"] == "mkfile" and op["path"].startswith(run["inputs"][0]["path"].replace("lnkroot/", "") + "/")
+                           and op["path"].endswith((".py", ".js", ".c"))), None)
+            ops.append({"op": "copy_tree", "from": first_ws, "to": "moved/" + first_ws})
+            if victim:
+                ops.append({"op": "rmfile", "path": victim})
+            second["force"] = False
+            second["flags"] = [f_ for f_ in second.get("flags", []) if f_ != "--incremental"] + ["--incremental"]
+            second["w"] = {"form": "abs", "path": "moved/" + first_ws}
+            ops.append(second)
+            return ops
         if kind2 != "same_forced":
             # ANOTHER project with the same directory and file names but other contents goes into the same workspace
             extra = []
@@ -403,11 +424,25 @@ def execute(trace):
         probes[name] = probes.get(name, 0) + n
 
     try:
-        world_ops = [op for op in trace["ops"] if op["op"] != "run"]
+        world_ops = [op for op in trace["ops"] if op["op"] not in ("run", "copy_tree", "rmfile")]
         runs = [op for op in trace["ops"] if op["op"] == "run"]
         _mk_world(R, world_ops)
         n_run = 0
         for step, op in enumerate(trace["ops"]):
+            if op["op"] == "copy_tree" and n_run >= 1:
+                src_, dst_ = os.path.join(R, op["from"]), os.path.join(R, op["to"])
+                if os.path.isdir(src_) and not os.path.lexists(dst_):
+                    os.makedirs(os.path.dirname(dst_), exist_ok=True)
+                    shutil.copytree(src_, dst_, symlinks=True)
+                    hit("workspace_copied_elsewhere")
+                continue
+            if op["op"] == "rmfile" and n_run >= 1:
+                try:
+                    os.remove(os.path.join(R, op["path"]))
+                    hit("input_file_deleted_between_runs")
+                except OSError:
+                    pass
+                continue
             if op["op"] != "run":
                 continue
             n_run += 1
@@ -428,6 +463,8 @@ def execute(trace):
                 hit("first_run_incremental")
             if not op.get("quiet", True):
                 hit("not_quiet")
+            if op["lang"] == "c" and any(o_["op"] == "mkfile" and any(ch in os.path.basename(o_["path"]) for ch in ">;$&`*' ") and o_["path"].endswith(".c") for o_ in world_ops):
+                hit("shell_metacharacters_in_c_file_name")
             if "-p" in op.get("flags", []):
                 hit("debug_print_stmts")
             if "/src/" in W[len(R):].rsplit("/" + DEFAULT_WS, 1)[0] + "/":
